@@ -14,9 +14,10 @@ GOOD = {
 }
 GOOD["same_pair_rgb_notation"] = ".n {\n  color: rgb(119, 119, 119);\n  background-color: white;\n}\n"
 GOOD_ORDER = list(GOOD)
-FAULTS = ["non_utf8", "directory", "dangling_link", "unserialisable", "empty"]
+FAULTS = ["non_utf8", "directory", "dangling_link", "unserialisable", "empty", "stale_output"]
 FAULT_POS = ["0.css", "b.css", "n.css", "sub/y.css"]
-GOOD_POS = ["a.css", "m.css", "sub/z.css"]
+GOOD_POS = ["a.css", "m_cmyk.css", "sub/z_cm_v2.css"]   # '_cm' inside a stem does not make a file an output
+STALE = ("stale_cm.css", ".old {\n  color: #777;\n}\n")   # an output of some earlier run: never an input, never touched
 SETTINGS = (1, False, None)
 
 
@@ -33,6 +34,9 @@ def make_fault(w, rel, kind):
         open(p, "w").write(".u {\n  *zoom: 1;\n  color: #777;\n}\n")
     elif kind == "empty":
         open(p, "w").close()
+    elif kind == "stale_output":
+        q = os.path.join(os.path.dirname(p), STALE[0])
+        open(q, "w").write(STALE[1])
 
 
 def snapshot(root):
